@@ -144,7 +144,11 @@ func actsFor(c *Ctx, f *ssa.Function, names map[string]bool, pkgPath string) boo
 		return false
 	}
 	for _, o := range owners {
-		if !names[o.Name()] {
+		nm := o.Name()
+		if a := aliasedBase(o); a != "" {
+			nm = a
+		}
+		if !names[nm] {
 			return false
 		}
 		if pkgPath != "" && (o.Pkg == nil || o.Pkg.Pkg.Path() != pkgPath) {
@@ -165,4 +169,101 @@ func funcByName(c *Ctx, name string) *ssa.Function {
 		}
 	}
 	return funcsByName[name]
+}
+
+// ---------------------------------------------------------------------------
+// renamed anchors. When a function of the reference tree is gone and exactly
+// one function newer than the rules exists in the same package with the same
+// receiver type and the same signature, the new one is taken to be the old one
+// under a new name: it is resolved where the old name is asked for and printed
+// under the old name, so that rules written against the reference names keep
+// deciding it. A wrong pairing cannot hide anything: the rules then judge the
+// paired function by the anchor's specification.
+
+var (
+	renameNewToOld map[*ssa.Function]string // new function → reference base name
+	renameOldToNew map[string]*ssa.Function // reference fname → new function
+	renameCtx      *Ctx
+)
+
+func sigKey(f *ssa.Function) string {
+	recv := ""
+	if r := f.Signature.Recv(); r != nil {
+		recv = r.Type().String()
+	}
+	return recv + "|" + f.Signature.Params().String() + "|" + f.Signature.Results().String()
+}
+
+func buildRenames(c *Ctx) {
+	if renameCtx == c {
+		return
+	}
+	renameCtx = c
+	renameNewToOld = map[*ssa.Function]string{}
+	renameOldToNew = map[string]*ssa.Function{}
+	loadKnownFuncs()
+	present := map[string]bool{}
+	byPkg := map[string][]*ssa.Function{} // new declared functions per package
+	for _, f := range modFunctions(c) {
+		if f.Parent() != nil || f.Synthetic != "" || f.Pkg == nil {
+			continue
+		}
+		present[fname(f)] = true
+		if !knownFuncs[fnameRaw(f)] {
+			byPkg[f.Pkg.Pkg.Path()] = append(byPkg[f.Pkg.Pkg.Path()], f)
+		}
+	}
+	// reference names that are gone, with the package and "shape" recoverable from the name
+	for old := range knownFuncs {
+		if present[old] {
+			continue
+		}
+		// candidates: new functions whose printed name differs from old only in the final identifier
+		i := strings.LastIndex(old, ".")
+		if i < 0 {
+			continue
+		}
+		prefix := old[:i+1]
+		var cands []*ssa.Function
+		for _, fs := range byPkg {
+			for _, f := range fs {
+				n := fnameRaw(f)
+				if j := strings.LastIndex(n, "."); j >= 0 && n[:j+1] == prefix {
+					cands = append(cands, f)
+				}
+			}
+		}
+		if len(cands) != 1 {
+			continue
+		}
+		renameOldToNew[old] = cands[0]
+	}
+	// a new function may stand for one old name only
+	count := map[*ssa.Function]int{}
+	for _, f := range renameOldToNew {
+		count[f]++
+	}
+	for old, f := range renameOldToNew {
+		if count[f] != 1 {
+			delete(renameOldToNew, old)
+			continue
+		}
+		renameNewToOld[f] = old[strings.LastIndex(old, ".")+1:]
+	}
+}
+
+// fnameRaw is fname without rename aliasing.
+func fnameRaw(f *ssa.Function) string {
+	s := f.String()
+	s = strings.ReplaceAll(s, modPath+"/", "")
+	s = strings.ReplaceAll(s, modPath, "zlint")
+	return s
+}
+
+// aliasedBase: the reference name of a renamed anchor ("" if f is not one).
+func aliasedBase(f *ssa.Function) string {
+	if renameNewToOld == nil || f == nil {
+		return ""
+	}
+	return renameNewToOld[f]
 }
